@@ -197,6 +197,16 @@ def cross_curve_eq(ctx, c1, reps):
     equal, whatever representation either operand is in (and whatever was done to it before)"""
     p, a, b = c1
     cf1 = CurveFp(p, a, b)
+    ctx.ev()
+    twin = CurveFp(p, a, b, 1)
+    other = CurveFp(p, (a + 1) % p, b)
+    try:
+        if not (cf1 == twin) or (cf1 != twin) or hash(cf1) != hash(twin) or (cf1 == other) or not (cf1 != other) \
+                or {cf1: 1}.get(twin) != 1 or len({cf1, twin, other}) != 2:
+            ctx.fail("curve-eq-hash", {"kind": "crosseq", "c": list(c1), "P": None, "rp": "J1", "rq": "J1"},
+                     "CurveFp equality / hash inconsistent")
+    except Exception as e:
+        ctx.fail("curve-eq-hash/exception/%s" % exc_sig(e), {"kind": "crosseq", "c": list(c1), "P": None, "rp": "J1", "rq": "J1"}, repr(e))
     for P in rec.points(c1):
         x, y = P
         a2 = (a + 1) % p
